@@ -2,7 +2,7 @@ import ScriggoV.Basic.Bytes
 import ScriggoV.Basic.Utf8
 /-! Independent specification for C08: an RFC 8259 recogniser and decoder to an abstract
 `Data`, and (flag `js := true`) a recogniser for the subset of JavaScript expressions that are
-*literals*: everything JSON has, plus `undefined`, block comments as white space and
+*literals*: everything JSON has, plus `undefined`, `NaN`, block comments as white space and
 `new Date("…")`. Written from the RFCs / ECMA-262, not from Scriggo's code. Core Lean only.
 
 The decoder is a recursive-descent parser with fuel; every call is made with at least
@@ -165,11 +165,12 @@ def kwNull : Bytes := [0x6E, 0x75, 0x6C, 0x6C]
 def kwTrue : Bytes := [0x74, 0x72, 0x75, 0x65]
 def kwFalse : Bytes := [0x66, 0x61, 0x6C, 0x73, 0x65]
 def kwUndefined : Bytes := [0x75, 0x6E, 0x64, 0x65, 0x66, 0x69, 0x6E, 0x65, 0x64]
+def kwNaN : Bytes := [0x4E, 0x61, 0x4E]
 /-- `new Date("` -/
 def kwNewDate : Bytes := [0x6E, 0x65, 0x77, 0x20, 0x44, 0x61, 0x74, 0x65, 0x28, 0x22]
 
 /-- a value that is neither an array, an object nor a string: keyword, number,
-and for JS `undefined` and `new Date("…")` -/
+and for JS `undefined`, `new Date("…")` and `NaN` -/
 def parseAtom (js : Bool) (s : Bytes) : Option (Data × Bytes) :=
   match stripPrefix kwNull s with
   | some r => some (.null, r)
@@ -188,6 +189,9 @@ def parseAtom (js : Bool) (s : Bytes) : Option (Data × Bytes) :=
     match parseStr r with
     | some (body, c :: r') => if c == 0x29 then some (.date body, r') else none
     | _ => none
+  | none =>
+  match (if js then stripPrefix kwNaN s else none) with
+  | some r => some (.num kwNaN, r)      -- the global `NaN`: a number, spelled as Go spells it
   | none =>
     let tok := s.takeWhile isNumChar
     if isNumber tok then some (.num tok, s.dropWhile isNumChar) else none
